@@ -1,7 +1,7 @@
 // E2 harness for C13: pika::thread / pika::jthread join, detach, exit callbacks, interruption.
 // usage: e2_join <seed> <perturb_per_1024> <prog> <size> [pika options...]
 //   prog: mixed | basic | usercb | twojoin | interrupt | jthread | nested | errors | moves | jtmove | movejoin |
-//         handles | jtswap | mixed2 | dtorterm (negative) | joinintr (directed, finding) | yieldintr (finding)
+//         handles | jtswap | mixed2 | dtorterm (negative) | joinintr (directed, finding) | joinpend (directed, one worker) | yieldintr (finding)
 // The real runtime runs generated scenarios; every instrumented operation (hooks `jn.* jt.* ec.*
 // ip.*` in thread.cpp / thread.hpp / jthread.hpp / thread_data.{hpp,cpp}) is appended to the exact
 // E2 log.  Prints: log lines, `monitor <text>` lines (violations seen from observables only), `stat`
@@ -797,6 +797,59 @@ static void sc_joinintr(std::uint64_t)
     stat("joinintr_early_return", s->early.load());
 }
 
+// directed (one worker): an interruption request that is already PENDING when join() is entered.  J is interrupted before it
+// has run (the creating task has not yielded yet), its first join throws thread_interrupted at the interruption point at the
+// entry of join - nothing may be left registered on the target - J handles it and joins a second thread; the first target
+// then exits.  J's second join must not return before its own target has finished.
+static void sc_joinpend(std::uint64_t)
+{
+    struct sh
+    {
+        pika::counting_semaphore<> sem1{0}, sem2{0}, reached2{0};
+        std::atomic<int> stage{0}, fin1{0}, fin2{0}, intr{0};
+    };
+    auto s = std::make_shared<sh>();
+    auto o1 = std::make_shared<pika::thread>([=] { activity a; s->sem1.acquire(); s->fin1.store(1); });
+    auto o2 = std::make_shared<pika::thread>([=] { activity a; s->sem2.acquire(); s->fin2.store(1); });
+    pika::thread J([=] {
+        activity a;
+        try
+        {
+            s->stage.store(1);
+            o1->join();
+            monitor("joinpend: join returned although an interruption was pending when it was entered and its target still runs");
+        }
+        catch (pika::thread_interrupted const&) { s->intr.store(1); }
+        catch (pika::exception const& e)
+        {
+            s->intr.store(2);
+            monitor(std::string("joinpend: a join entered with a pending interruption threw pika::exception instead of thread_interrupted: ") +
+                std::to_string(int(e.get_error())));
+        }
+        s->stage.store(2);
+        s->reached2.release();
+        try
+        {
+            o2->join();
+            if (s->fin2.load() != 1)
+                monitor("joinpend: join returned before the thread function finished (the interruption was pending when the earlier join was "
+                        "entered: that join must not leave anything registered on its target)");
+        }
+        catch (pika::exception const&) { monitor("joinpend: second join threw"); }
+        s->stage.store(3);
+    });
+    J.interrupt();            // J has not run yet on a one-worker runtime
+    s->reached2.acquire();    // J handled the interruption and is on its way into the second join
+    yields(3);                // (one worker: J runs until it blocks in o2->join())
+    s->sem1.release();
+    if (o1->joinable()) o1->join();    // o1 exits and processes its exit callbacks
+    yields(4);                         // a wrongly resumed J would run now
+    s->sem2.release();
+    J.join();
+    if (o2->joinable()) o2->join();
+    stat("joinpend_interrupted", s->intr.load());
+}
+
 static void scenario(std::string const& prog, std::uint64_t seed)
 {
     rng r{seed};
@@ -815,6 +868,7 @@ static void scenario(std::string const& prog, std::uint64_t seed)
     else if (prog == "mixed2") k = int(r.below(10));
     else if (prog == "dtorterm") k = 10;
     else if (prog == "joinintr") k = 11;
+    else if (prog == "joinpend") k = 13;
     else k = int(r.below(7));
     std::uint64_t s = r.next();
     switch (k)
@@ -831,6 +885,7 @@ static void scenario(std::string const& prog, std::uint64_t seed)
     case 10: sc_dtorterm(s); break;
     case 11: sc_joinintr(s); break;
     case 12: sc_jtswap(s); break;
+    case 13: sc_joinpend(s); break;
     default: sc_jthread(s); break;
     }
 }
